@@ -17,7 +17,7 @@ import multiprocessing as mp
 
 VERIF = os.path.dirname(os.path.dirname(os.path.abspath(__file__)))
 OUT = os.path.join(VERIF, "out")
-EVID = os.path.join(VERIF, "evidence")
+EVID = os.environ.get("VERIF_EVIDENCE_DIR") or os.path.join(VERIF, "evidence")
 KNOWN_FILE = os.path.join(VERIF, "known_findings.json")
 
 CLAIMED = ["C01", "C02", "C03", "C05", "C06", "C08", "C09", "C10", "C11", "C15", "C16", "C17", "C19"]
